@@ -17,31 +17,34 @@ import (
 // argument. Accepted: a function, or the load of a package-level variable that
 // is stored exactly once in the package initialiser, with
 //   - a function literal, or
-//   - (scalar activations only) the result of a call f(c1, ..., cn) with
+//   - (scalar activations) the result of a call f(c1, ..., cn) with
 //     constant arguments, where f is a function of the library whose body is a
 //     single `return func(...) {...}`: the literal is returned together with the
-//     constants its captured parameters hold.
+//     constants its captured parameters hold, or
+//   - (module activations) the result of a call of a library function that returns
+//     one closure: the closure is returned together with what its captured
+//     variables hold (c18FactoryClosure).
 //
 // Anything else is reported with a reason; it never panics (a registration that
 // cannot be resolved is an undecided obligation of C18.1).
-func resolveActivation(p *Prog, fv ssa.Value, module bool) (fn *ssa.Function, bind aenv, why string) {
+func resolveActivation(p *Prog, fv ssa.Value, module bool) (fn *ssa.Function, bind aenv, capt *c18Capture, why string) {
 	if ct, ok := fv.(*ssa.ChangeType); ok {
 		fv = ct.X
 	}
 	if f, ok := fv.(*ssa.Function); ok {
-		return f, nil, ""
+		return f, nil, nil, ""
 	}
 	u, ok := fv.(*ssa.UnOp)
 	if !ok || u.Op != token.MUL {
-		return nil, nil, "the function argument is neither a function nor a package-level variable"
+		return nil, nil, nil, "the function argument is neither a function nor a package-level variable"
 	}
 	g, ok := u.X.(*ssa.Global)
 	if !ok {
-		return nil, nil, "the function argument is neither a function nor a package-level variable"
+		return nil, nil, nil, "the function argument is neither a function nor a package-level variable"
 	}
 	sp := g.Pkg
 	if sp == nil || sp.Func("init") == nil {
-		return nil, nil, "no package initialiser for " + g.Name()
+		return nil, nil, nil, "no package initialiser for " + g.Name()
 	}
 	var stored []ssa.Value
 	Instrs(sp.Func("init"), func(_ *ssa.BasicBlock, _ int, in ssa.Instruction) {
@@ -50,35 +53,43 @@ func resolveActivation(p *Prog, fv ssa.Value, module bool) (fn *ssa.Function, bi
 		}
 	})
 	if len(stored) != 1 {
-		return nil, nil, fmt.Sprintf("the variable %s is stored %d times in the package initialiser", g.Name(), len(stored))
+		return nil, nil, nil, fmt.Sprintf("the variable %s is stored %d times in the package initialiser", g.Name(), len(stored))
+	}
+	if ct, ok := stored[0].(*ssa.ChangeType); ok {
+		stored[0] = ct.X
 	}
 	switch v := stored[0].(type) {
 	case *ssa.Function:
-		return v, nil, ""
+		return v, nil, nil, ""
 	case *ssa.MakeClosure:
 		if len(v.Bindings) == 0 {
-			return v.Fn.(*ssa.Function), nil, ""
+			return v.Fn.(*ssa.Function), nil, nil, ""
 		}
-		return nil, nil, "the variable " + g.Name() + " holds a closure with captured variables"
+		return nil, nil, nil, "the variable " + g.Name() + " holds a closure with captured variables"
 	case *ssa.Call:
 		if module {
-			return nil, nil, "the module activator " + g.Name() + " is produced by a call; the fold rule needs the function literal itself"
+			// the closure a factory returns, with what its captured variables hold (c18FactoryClosure below)
+			fn, capt, why = c18FactoryClosure(v)
+			if fn == nil {
+				return nil, nil, nil, "the module activator " + g.Name() + " is produced by a call: " + why
+			}
+			return fn, nil, capt, ""
 		}
 		callee := v.Call.StaticCallee()
 		if callee == nil || !InRepo(callee) || v.Call.IsInvoke() || callee.Signature.Recv() != nil {
-			return nil, nil, "the variable " + g.Name() + " is initialised by a call that is not a static call of a library function"
+			return nil, nil, nil, "the variable " + g.Name() + " is initialised by a call that is not a static call of a library function"
 		}
 		decl, ok := callee.Syntax().(*ast.FuncDecl)
 		if !ok || decl.Body == nil || len(decl.Body.List) != 1 {
-			return nil, nil, "the factory " + callee.Name() + " is more than a single return of a function literal"
+			return nil, nil, nil, "the factory " + callee.Name() + " is more than a single return of a function literal"
 		}
 		ret, ok := decl.Body.List[0].(*ast.ReturnStmt)
 		if !ok || len(ret.Results) != 1 {
-			return nil, nil, "the factory " + callee.Name() + " is more than a single return of a function literal"
+			return nil, nil, nil, "the factory " + callee.Name() + " is more than a single return of a function literal"
 		}
 		lit, ok := unparen(ret.Results[0]).(*ast.FuncLit)
 		if !ok {
-			return nil, nil, "the factory " + callee.Name() + " does not return a function literal"
+			return nil, nil, nil, "the factory " + callee.Name() + " does not return a function literal"
 		}
 		for _, af := range callee.AnonFuncs {
 			if af.Syntax() == ast.Node(lit) {
@@ -86,7 +97,7 @@ func resolveActivation(p *Prog, fv ssa.Value, module bool) (fn *ssa.Function, bi
 			}
 		}
 		if fn == nil || len(v.Call.Args) != len(callee.Params) {
-			return nil, nil, "the function literal of the factory " + callee.Name() + " does not resolve"
+			return nil, nil, nil, "the function literal of the factory " + callee.Name() + " does not resolve"
 		}
 		bind = aenv{}
 		for i, a := range v.Call.Args {
@@ -98,9 +109,118 @@ func resolveActivation(p *Prog, fv ssa.Value, module bool) (fn *ssa.Function, bi
 			f, _ := constant.Float64Val(constant.ToFloat(c.Value))
 			bind[obj] = &abind{konst: &f}
 		}
-		return fn, bind, ""
+		return fn, bind, nil, ""
 	}
-	return nil, nil, "the variable " + g.Name() + " is not initialised with a function literal"
+	return nil, nil, nil, "the variable " + g.Name() + " is not initialised with a function literal"
+}
+
+// c18Capture: what the captured variables of a closure hold whenever the closure runs. vals maps a free variable of
+// the closure to a value of the function `in` (the caller of the factory that made the closure); a free variable that
+// is not in the map is unknown.
+type c18Capture struct {
+	vals map[*ssa.FreeVar]ssa.Value
+	in   *ssa.Function
+	tm   *Termer // of in, built on first use
+}
+
+func (c *c18Capture) termer() *Termer {
+	if c.tm == nil {
+		c.tm = NewTermer(c.in)
+	}
+	return c.tm
+}
+
+// c18FactoryClosure resolves `v = f(a1, ..., an)` where f is a function of the library that returns a closure:
+// every return of f yields the same `make closure lit [b1, ..., bk]`. The closure runs after f made it, so a captured
+// variable bi holds, whenever the closure runs, the value it was given in f PROVIDED nothing can change it later:
+//   - bi is a local of f (go/ssa captures by reference: an Alloc) that is stored exactly once, before the closure is
+//     made, with a parameter of f (then it holds the argument aj of the call) or a constant;
+//   - every other use of bi in f is a load or the binding of a closure, and in every closure bi is bound to, the
+//     free variable is only loaded (never stored through, never handed on).
+//
+// Such a bi is entered into the capture with the caller's value; any other bi is left out (its uses stay unknown to
+// the rules, which then fail). Nothing is assumed about f's name or the number / order of its parameters.
+func c18FactoryClosure(call *ssa.Call) (fn *ssa.Function, capt *c18Capture, why string) {
+	callee := call.Call.StaticCallee()
+	if callee == nil || !InRepo(callee) || call.Call.IsInvoke() || len(callee.Blocks) == 0 || len(call.Call.Args) != len(callee.Params) {
+		return nil, nil, "not a static call of a library function"
+	}
+	var mc *ssa.MakeClosure
+	for _, b := range callee.Blocks {
+		ret, ok := b.Instrs[len(b.Instrs)-1].(*ssa.Return)
+		if !ok {
+			continue
+		}
+		if len(ret.Results) != 1 {
+			return nil, nil, "the factory " + callee.Name() + " does not return one function"
+		}
+		rv := ret.Results[0]
+		if ct, ok := rv.(*ssa.ChangeType); ok {
+			rv = ct.X
+		}
+		m, ok := rv.(*ssa.MakeClosure)
+		if !ok || (mc != nil && m != mc) {
+			return nil, nil, "the factory " + callee.Name() + " does not return one and the same function literal on every path"
+		}
+		mc = m
+	}
+	if mc == nil {
+		return nil, nil, "the factory " + callee.Name() + " does not return"
+	}
+	fn, ok := mc.Fn.(*ssa.Function)
+	if !ok || len(fn.FreeVars) != len(mc.Bindings) {
+		return nil, nil, "the function literal of the factory " + callee.Name() + " does not resolve"
+	}
+	capt = &c18Capture{vals: map[*ssa.FreeVar]ssa.Value{}, in: call.Parent()}
+	for i, b := range mc.Bindings {
+		a, ok := b.(*ssa.Alloc)
+		if !ok || a.Parent() != callee || a.Referrers() == nil {
+			continue
+		}
+		var stores []*ssa.Store
+		stable := true
+		for _, ref := range *a.Referrers() {
+			switch x := ref.(type) {
+			case *ssa.DebugRef:
+			case *ssa.Store:
+				if x.Addr != ssa.Value(a) {
+					stable = false // the address itself is stored
+				}
+				stores = append(stores, x)
+			case *ssa.UnOp:
+				if x.Op != token.MUL || x.X != ssa.Value(a) {
+					stable = false
+				}
+			case *ssa.MakeClosure:
+				f2, ok := x.Fn.(*ssa.Function)
+				if !ok || len(f2.FreeVars) != len(x.Bindings) {
+					stable = false
+					break
+				}
+				for j, b2 := range x.Bindings {
+					if b2 == ssa.Value(a) && !c18LoadsOnly(f2.FreeVars[j]) {
+						stable = false
+					}
+				}
+			default:
+				stable = false
+			}
+		}
+		if !stable || len(stores) != 1 || !c18Precedes(stores[0], mc) {
+			continue
+		}
+		switch sv := stores[0].Val.(type) {
+		case *ssa.Parameter:
+			for k, q := range callee.Params {
+				if q == sv {
+					capt.vals[fn.FreeVars[i]] = call.Call.Args[k]
+				}
+			}
+		case *ssa.Const:
+			capt.vals[fn.FreeVars[i]] = sv
+		}
+	}
+	return fn, capt, ""
 }
 
 // scalarSyntax returns what the interpreter of the scalar activations needs of a registered function: the type
@@ -291,6 +411,58 @@ func c18ResultLeaves(fn *ssa.Function, idx int) []c18Leaf {
 		visit(ret.Results[idx], append([]Guard{}, Guards(b)...))
 	}
 	return out
+}
+
+// c18ImpliedGuards: the branch outcomes that hold whenever guard g holds because of the way the tested value was
+// merged. g tests a phi against nil (`err != nil`, `err == nil`): under g the phi can only have taken the edges g
+// does not rule out (FeasibleEdges: a nil constant contradicts "non-nil", a fresh fmt.Errorf / errors.New result or
+// an allocation contradicts "nil"; any other edge stays possible), so an outcome that is known on EVERY such edge
+// (condsAt: the outcomes dominating the predecessor plus its own branch) held when the phi received its value. The
+// conditions are SSA values defined before the merge; outside a loop they are not evaluated again, so the outcome is
+// still a fact where g is known. Nothing is implied when the phi sits in a loop or no edge remains.
+func c18ImpliedGuards(g Guard, loops []*Loop) []Guard {
+	c, ok := g.Cond.(*ssa.BinOp)
+	if !ok || (c.Op != token.EQL && c.Op != token.NEQ) {
+		return nil
+	}
+	x, y := c.X, c.Y
+	if k, isK := x.(*ssa.Const); isK && k.Value == nil {
+		x, y = y, x
+	}
+	if k, isK := y.(*ssa.Const); !isK || k.Value != nil {
+		return nil
+	}
+	ph, ok := x.(*ssa.Phi)
+	if !ok || InnermostLoop(loops, ph.Block()) != nil {
+		return nil
+	}
+	if want, kind := guardOn(g, ph); kind != "nil" || want != ((c.Op == token.EQL) == g.True) {
+		return nil
+	}
+	feasible := FeasibleEdges(ph, []Guard{g})
+	var common []Guard
+	first := true
+	for i := range ph.Edges {
+		if !feasible[i] {
+			continue
+		}
+		gs := condsAt(ph.Block().Preds[i], ph.Block())
+		if first {
+			common, first = gs, false
+			continue
+		}
+		var keep []Guard
+		for _, a := range common {
+			for _, b := range gs {
+				if a.Cond == b.Cond && a.True == b.True {
+					keep = append(keep, a)
+					break
+				}
+			}
+		}
+		common = keep
+	}
+	return common
 }
 
 // c18ErrorOnly checks, for a caller that forwards a lookup of the activator
@@ -999,13 +1171,30 @@ type c18Fold struct {
 	call  *ssa.Call     // act's call of host (nil when host == act)
 	loop  *Loop
 	acc   *ssa.Phi
+	capt  *c18Capture // what act's captured variables hold (an activator made by a closure factory), or nil
+}
+
+// actValue: a value of the activator as the rules should read it: the load of a captured variable whose content is
+// known (c18FactoryClosure) is the value the factory's caller supplied - returned with the Termer of that caller;
+// anything else is itself, read with the activator's Termer.
+func (fd *c18Fold) actValue(a ssa.Value) (ssa.Value, *Termer) {
+	if fd.capt != nil {
+		if ld, ok := a.(*ssa.UnOp); ok && ld.Op == token.MUL {
+			if fv, ok := ld.X.(*ssa.FreeVar); ok && fv.Parent() == fd.act {
+				if v, known := fd.capt.vals[fv]; known {
+					return v, fd.capt.termer()
+				}
+			}
+		}
+	}
+	return a, fd.actTm
 }
 
 // c18FoldOf: the one loop of the activator, or the one loop of the one library function whose result the activator
 // stores into a slice element.
-func c18FoldOf(fn *ssa.Function) (*c18Fold, string) {
+func c18FoldOf(fn *ssa.Function, capt *c18Capture) (*c18Fold, string) {
 	const none = "expected one loop over the inputs"
-	fd := &c18Fold{act: fn, actTm: NewTermer(fn), host: fn}
+	fd := &c18Fold{act: fn, actTm: NewTermer(fn), host: fn, capt: capt}
 	loops := Loops(fn)
 	switch {
 	case len(loops) == 1:
@@ -1126,8 +1315,14 @@ func (fd *c18Fold) initTerm() (t *Term, inputsElem bool) {
 	}
 	if a := fd.arg(init); a != nil {
 		// an argument is a value of the activator: an element of ITS inputs there
-		t = fd.actTm.Of(a)
-		return t, t.Op == "elem" && isParamIdx(t.Args[0], 0)
+		v, tm := fd.actValue(a)
+		t = tm.Of(v)
+		return t, tm == fd.actTm && t.Op == "elem" && isParamIdx(t.Args[0], 0)
+	}
+	if fd.call == nil {
+		if v, tm := fd.actValue(init); tm != fd.actTm {
+			return tm.Of(v), false // a captured start value: a value of the factory's caller, not an input
+		}
 	}
 	return fd.tm.Of(init), fd.isInput(init)
 }
@@ -1216,9 +1411,16 @@ func (fd *c18Fold) update() (op string, x, y ssa.Value, desc string) {
 			}
 			return "", nil, nil, desc
 		}
-		if a := fd.arg(u.Call.Value); a != nil {
-			n := c18BinaryOp(a)
-			desc += " with the operation " + fd.actTm.Of(a).String()
+		// the function called is a value of the activator: the argument it passes for a parameter of the host, or
+		// (the loop being its own) the value called; either may be a captured variable of known content
+		a := fd.arg(u.Call.Value)
+		if a == nil && fd.call == nil {
+			a = u.Call.Value
+		}
+		if a != nil {
+			v, tm := fd.actValue(a)
+			n := c18BinaryOp(v)
+			desc += " with the operation " + tm.Of(v).String()
 			if n != "" {
 				return n, u.Call.Args[0], u.Call.Args[1], desc + " = " + n
 			}
